@@ -25,6 +25,8 @@ TEMPLATES = {
     # two solutes, listed in non-alphabetical order, each with its own concentration
     'sol2': {'creates': 'S', 'extra': True},
     'solC': {'needs': 'C', 'creates': 'S'}, 'A>C': {'needs': 'C'}, 'C>B': {'needs': 'C'},
+    # a partial remove from a container the recipe itself created (the solvent goes, the solutes stay)
+    'rmSw': {'needs': 'S', 'extra': True},
 }
 WELLS = [(0, 0), (0, 1), (1, 0), (1, 1)]
 
@@ -97,7 +99,7 @@ class Cast:
 USES = {
     'A>Psub': 'AP', 'Psub>B': 'PB', 'A>B': 'AB', 'A>Pr': 'AP', 'Pc>B': 'PB', 'P11>Pr2': 'P', 'Pr1>Pr2': 'P', 'rmB': 'B', 'rmPr': 'P', 'rmP': 'P',
     'fillB': 'B', 'fillP': 'P', 'fillS': 'P', 'dilA': 'A', 'dilAn': 'A', 'mkC': '', 'solW': '', 'solA': 'A', 'fromA': 'A', 'fromAd': 'A', 'sol2': '',
-    'solC': '', 'A>C': 'A', 'C>B': 'B',
+    'solC': '', 'A>C': 'A', 'C>B': 'B', 'rmSw': '',
 }
 
 
@@ -163,6 +165,8 @@ def add_step(cast: Cast, rec, t, v, placeholders):
         rec.remove(P[1, :], water)
     elif t == 'rmP':
         rec.remove(P, water)
+    elif t == 'rmSw':
+        rec.remove(placeholders['S'], water)
     elif t == 'fillB':
         rec.fill_to(B, water, f"{v['T']} uL")
     elif t == 'fillP':
@@ -227,10 +231,10 @@ def eager_step(cast: Cast, cur: dict, t, v):
         p1, p2 = Plate.transfer(cur['P'][1, :], cur['P'][2, :], f"{v['q']} uL")
         cur['P'] = p2
         return ['P'], discarded
-    if t in ('rmB', 'rmPr', 'rmP'):
-        name = 'B' if t == 'rmB' else 'P'
+    if t in ('rmB', 'rmPr', 'rmP', 'rmSw'):
+        name = {'rmB': 'B', 'rmSw': 'S'}.get(t, 'P')
         before = cur[name]
-        target = before if t in ('rmB', 'rmP') else before[1, :]
+        target = before if t in ('rmB', 'rmP', 'rmSw') else before[1, :]
         after = target.remove(water)
         cur[name] = after
         # what was discarded = before - after, per substance
